@@ -58,6 +58,15 @@ const F32_RANGES: &[(f32, f32)] = &[
     (-1e-3, 1e-3),
     (16_777_215.0, 16_777_216.0),
     (0.1, 0.3),
+    // ranges far from unit scale: an absolute epsilon, clamp or bias in the sampler shows only here
+    (0.0, 1e-10),
+    (-1e-9, 1e-9),
+    (1e-20, 3e-20),
+    (-2e-30, -1e-30),
+    (1e30, 2e30),
+    (-4e37, 4e37),
+    (0.0, 1.1754944e-38),
+    (3.0, 3.0000002),
 ];
 
 pub fn gen(rng: &mut Rng, tier: Tier, out: &mut Vec<String>) {
